@@ -421,15 +421,15 @@ func CheckC15Registry(run *harness.Run) ([]harness.Finding, map[string]interface
 		inconclusive = append(inconclusive, fmt.Sprintf("%d of %d linearizability checks timed out", linUnknown, hists))
 	}
 	ev := map[string]interface{}{
-		"registry_sequences_exhaustive":          seqs,
-		"registry_max_sequence_length":           maxLen,
+		"registry_sequences_exhaustive":            seqs,
+		"registry_max_sequence_length":             maxLen,
 		"registry_sequences_with_issue_and_cancel": nontrivial,
-		"registry_samples":                       samples,
-		"concurrent_histories":                   hists,
-		"concurrent_histories_linearizable":      linOK,
-		"concurrent_histories_checker_timeout":   linUnknown,
-		"concurrent_operations":                  opsTotal,
-		"registry_violations_by_rule":            byRule,
+		"registry_samples":                         samples,
+		"concurrent_histories":                     hists,
+		"concurrent_histories_linearizable":        linOK,
+		"concurrent_histories_checker_timeout":     linUnknown,
+		"concurrent_operations":                    opsTotal,
+		"registry_violations_by_rule":              byRule,
 	}
 	return findings, ev, inconclusive
 }
